@@ -532,9 +532,9 @@ func gen(r *lib.Rand, tier string, emit func(string)) {
 			v := byte(r.Pick([]int{0xaa, 0x42}))
 			d[0], d[1] = v, v
 		}
-		c := r.Intn(20)
+		sp := r.Intn(20)
 		for _, k := range kinds {
-			emit(fmt.Sprintf("lllc dec %s %d %s %s", k, c, hx(foreignOf(c)), hx(d)))
+			emit(fmt.Sprintf("lllc dec %s %d %s %s", k, sp, hx(foreignOf(sp)), hx(d)))
 			emit(fmt.Sprintf("lllc rtdec %s %s", k, hx(d)))
 		}
 		emit("lllc dlp " + hx(d))
